@@ -283,9 +283,33 @@ class C21(Check):
         return plan
 
     @staticmethod
+    def _degenerate_at_optimum(qq, ref):
+        """The equality rows force a variable onto one of its bounds: their gradients and those of the bounds
+        active at the reference optimum are linearly dependent (no constraint qualification).  Inequality rows
+        are left out on purpose: two coincident rows that happen to pass through the optimum are harmless."""
+        xs = ref[1]
+        act = []
+        for k, rr, a, d, lo, up, e in con_rows(qq):
+            if e is not None:
+                act.append(np.array(a, dtype=float))
+        if not act:
+            return False
+        for j in range(len(xs)):
+            if abs(xs[j] - qq['xlo']) < 1e-7 or abs(xs[j] - qq['xup']) < 1e-7:
+                ej = np.zeros(len(xs))
+                ej[j] = 1.0
+                act.append(ej)
+        return bool(act) and np.linalg.matrix_rank(np.array(act), tol=1e-9) < len(act)
+
+    @staticmethod
     def _optimizer_itself_suboptimal(qq, x_start, ref):
         if x_start is None or ref is None:
             return False
+        if C21._degenerate_at_optimum(qq, ref):
+            # no constraint qualification at the optimum: SLSQP / trust-constr stop early there with success, and
+            # where they stop depends on the scaling of the variables (plain scipy in metres finds the optimum of a
+            # problem on which plain scipy in centimetres -- what the driver passes with units='cm' -- does not)
+            return True
         xt = plain_scipy_twin(qq, x_start)
         if xt is None:
             return False
